@@ -41,7 +41,7 @@ TCall ==
     /\ Is("Call") /\ Adv
     /\ viol' = viol \o Failed(<<
           <<"C14.ReadYourWrites", IsRead => <<e.ok, e.rh, e.rv, e.rx>> = Expected, "a read did not return what the latest write for that height / hash / key stored">>,
-          <<"C14.WritesSucceed", (~IsRead /\ ~e.crashed) => e.ok, "a write failed">>,
+          <<"C14.WritesSucceed", (~IsRead /\ ~e.crashed /\ ~("wf" \in DOMAIN e /\ e.wf)) => e.ok, "a write failed (without an injected write fault)">>,
           <<"C14.HashLookupExact", ~StaleHit, "lookup by the hash of an overwritten block returned the block that replaced it (stale hash index entry)">>
           >>, l, run)
     /\ IF IsRead \/ e.crashed \/ ~e.ok
